@@ -33,11 +33,12 @@ PROPS = {
     },
     'C05': {
         'lean': ['Netpol.Properties.C05', 'Netpol.Tie.Procs'],
-        'families': [('list', 1500, 60000), ('exposure', 150, 6000)],
+        'families': [('list', 1500, 60000), ('exposure', 150, 6000), ('ingress', 400, 15000)],
         'accept_props': ['C05'],
         'shard_min': 50,
         'rule': 'as C01; P is a direct well-formedness checker over the returned []Peer2PeerConnection and []Peer; exposure family: the same checker on the '
-                'report produced with the exposure analysis, and on the connection of every exposure entry (ranges canonical, the full set never as three ranges)',
+                'report produced with the exposure analysis, and on the connection of every exposure entry (ranges canonical, the full set never as three ranges); '
+                'ingress family: the same checker on worlds with Services / Ingresses / Routes (the ingress-controller lines are entries of the relation too)',
         'assumptions': ['World.Valid inputs'],
     },
     'C15': {
